@@ -7,5 +7,5 @@ CHECKS["C19"] = dict(
         "objective-value oracles (not worse than the start, monotone in the cap) are applied to feasible starting points only; slack = 1e-12 per trial plus rounding of the objective values",
         "the reference uses the tolerance 1e-12 (TasGrid::Maths::num_tol) in the descent test",
     ],
-    jobs=[dict(harness="env_gd", variant="asan", args=[], quick=["--tier", "quick"], thorough=["--tier", "thorough"], deadline_quick=240, deadline_thorough=1140)],
+    jobs=[dict(harness="env_gd", variant="asan", args=[], quick=["--tier", "quick"], thorough=["--tier", "thorough"], deadline_quick=300, deadline_thorough=1140)],
 )
